@@ -182,10 +182,11 @@ def name_and_space(repo, chk, fn, comb, frame, args):
     flag = fn.params[3] if len(fn.params) > 3 else 'is_3mr'
     if len(rets) == 1 and isinstance(rets[0].value, ast.Tuple) and len(rets[0].value.elts) == 2:
         nt = term_of(comb, rets[0].value.elts[0], inline=True)
-        js = [n for n in own_nodes(fn.node) if isinstance(n, ast.Assign) and isinstance(n.targets[0], ast.Name) and n.targets[0].id == 'join_string']
+        jname = nt[1][1][1] if nt[0] == 'call' and nt[1][0] == 'attr' and nt[1][2] == 'join' and nt[1][1][0] == 'name' else None
+        js = [n for n in own_nodes(fn.node) if isinstance(n, ast.Assign) and isinstance(n.targets[0], ast.Name) and n.targets[0].id == jname]
         jt = term_of(fn, js[0].value, inline=False) if js else None
         ok_js = jt == E(f"' AND_REL ' if {flag} else ' AND '")
-        ok_name = nt == ('call', ('attr', ('name', 'join_string'), 'join'), (('name', c),), ())
+        ok_name = jname is not None and nt == ('call', ('attr', ('name', jname), 'join'), (('name', c),), ())
         chk.expect(ok_js and ok_name, 'C10.3', 'R15', comb.site(rets[0]), f'{ast.unparse(rets[0].value.elts[0])}; join_string = {ast.unparse(js[0].value) if js else None}', "name = ' AND '.join(constituents) (' AND_REL ' for 3MR relations), in candidate order",
                    "the feature name must be join_string.join(new_combination) with join_string = ' AND_REL ' if is_3mr else ' AND '")
     else:
@@ -207,7 +208,8 @@ def name_and_space(repo, chk, fn, comb, frame, args):
     if len(loops) == 1:
         lp = loops[0]
         it = ast.unparse(lp.iter)
-        space = 'full_combination_space'
+        samp0 = [x for x in calls(fn) if m.dotted(x.func) == f'{CR}.prior_combinations_sample']
+        space = ast.unparse(samp0[0].args[0]) if samp0 and samp0[0].args else 'full_combination_space'
         ok_it = it in (f'enumerate({space})', space)
         st = [s for s in ast.walk(lp) if isinstance(s, ast.Assign) and isinstance(s.targets[0], ast.Subscript)]
         unp = [s for s in ast.walk(lp) if isinstance(s, ast.Assign) and isinstance(s.targets[0], ast.Tuple) and isinstance(s.value, ast.Call) and isinstance(s.value.func, ast.Name) and s.value.func.id == comb.name]
@@ -216,7 +218,8 @@ def name_and_space(repo, chk, fn, comb, frame, args):
             ok_loop = ast.unparse(st[0].targets[0].slice) == nm and ast.unparse(st[0].value) == vals and not any(isinstance(x, (ast.If, ast.Continue, ast.Break)) for x in ast.walk(lp))
     chk.expect(ok_loop, 'C10.4b', 'R13', fn.site(loops[0]) if loops else fn.site(), ast.unparse(loops[0].iter) if loops else 'for combination in full_combination_space', 'one new column per selected combination, stored under its name', 'each selected combination must yield exactly one column stored under its own name')
     samp = [x for x in calls(fn) if m.dotted(x.func) == f'{CR}.prior_combinations_sample']
-    chk.expect(len(samp) == 1 and ast.unparse(samp[0].args[0]) == 'full_combination_space', 'C10.4c', 'R6', fn.site(samp[0]) if samp else fn.site(), ast.unparse(samp[0]).replace('\n', ' ')[:120] if samp else '', 'the candidate list is reduced only by the fair sampler', 'the candidate list must be passed through prior_combinations_sample (and nothing else drops candidates)')
+    spdef = [n for n in own_nodes(fn.node) if isinstance(n, ast.Assign) and isinstance(n.targets[0], ast.Name) and samp and n.value is samp[0]]
+    chk.expect(len(samp) == 1 and bool(spdef) and ast.unparse(samp[0].args[0]) == spdef[0].targets[0].id and any(isinstance(n, ast.Assign) and isinstance(n.targets[0], ast.Name) and n.targets[0].id == spdef[0].targets[0].id and cs and any(x is cs[0] for x in ast.walk(n.value)) for n in own_nodes(fn.node)), 'C10.4c', 'R6', fn.site(samp[0]) if samp else fn.site(), ast.unparse(samp[0]).replace('\n', ' ')[:120] if samp else '', 'the candidate list is reduced only by the fair sampler', 'the candidate list must be passed through prior_combinations_sample (and nothing else drops candidates)')
 
 
 def append_only(repo, chk, fn, frame):
